@@ -752,7 +752,7 @@ Lemma apply_op2_good T l o : 0 <= T -> Forall ss_good l ->
   (match o with OSetSS t => 0 <= t | OElapsed _ e => 0 <= e | _ => True end) ->
   0 <= fst (apply_op2 (T, l) o) /\ Forall ss_good (snd (apply_op2 (T, l) o)).
 Proof.
-  intros HT H Ho. destruct o as [k|conf|id a|t|id e|id]; simpl; split; try assumption.
+  intros HT H Ho. destruct o as [k|conf|id a|t|id e|id|id n]; simpl; split; try assumption.
   - apply update2_good; exact H.
   - apply on_id_good; [|exact H]. intros [[[[i w] c] av] s] G. exact G.
   - apply on_id_good; [|exact H]. intros [b [[[[fin inss] e0] rs] sT]] [[A1 A2] [B C]].
